@@ -218,8 +218,15 @@ def verify_discovery_binds(
                 f"cannot be discovered; rename them, or use a pythonic "
                 f"template."
             ]
-        except Exception:  # noqa: BLE001 — an invalid source is not ours
-            return []
+        except Exception as exc:  # noqa: BLE001 — reported, not swallowed
+            # 🚫 The runner makes this very call first thing: a source the
+            #    library rejects (no `states`, an unresolvable initial, ...)
+            #    would be written out as code that cannot build its machine.
+            return [
+                f"create_machine() rejects the source config, so the "
+                f"generated runner could not build it: "
+                f"{type(exc).__name__}: {exc}"
+            ]
     finally:
         # 🧹 Drop anything the executed code added or replaced.
         for name in set(sys.modules) - set(saved_modules):
